@@ -11,7 +11,7 @@ cd $W
 cp $M/*_test.go . 2>/dev/null
 for f in $M/*_test.go.txt; do [ -f "$f" ] && cp "$f" "./$(basename "${f%.txt}")"; done
 for d in $M/*/; do [ -d "$d" ] && for f in $d*_test.go; do [ -f "$f" ] && cp "$f" "./$(basename $d)/"; done; done
-DEMO=$(python3 -c "import json;print(json.load(open('$M/meta.json')).get('demo_cmd',''))" | sed "s#cd /tmp/mut[23456]\?_[A-Za-z0-9_]*#cd $W#g")
+DEMO=$(python3 -c "import json;print(json.load(open('$M/meta.json')).get('demo_cmd',''))" | sed "s#cd /tmp/mut[234567]\?_[A-Za-z0-9_]*#cd $W#g")
 echo "demo cmd: $DEMO"
 echo "--- without change"
 bash -c "$DEMO" > /tmp/confirm_without.txt 2>&1; R0=$?
